@@ -241,85 +241,21 @@ func (ex *Exec) builtin(st *State, fr *Frame, x *ssa.Call, b *ssa.Builtin, args 
 		}
 	case "append":
 		s := args[0].(SliceV)
-		var add []Value
-		switch t := args[1].(type) {
-		case SliceV:
-			n := ex.concreteInt(t.Len, "append: length of appended slice")
-			if n > 0 {
-				arr := st.heap[t.Obj].(*ArrV)
-				add = append(add, arr.Elems[t.Off:t.Off+n]...)
-			}
-		case *Term: // append([]byte, string...)
-			if !t.Const {
-				unsupported("append of symbolic string")
-			}
-			for i := 0; i < len(t.Str); i++ {
-				add = append(add, BVC(8, uint64(t.Str[i])))
-			}
-		default:
-			unsupported("append of %T", t)
-		}
-		ln := ex.concreteInt(s.Len, "append: slice length")
-		cp := ex.concreteInt(s.Cap, "append: slice capacity")
-		if len(add) == 0 {
-			done(s)
-			return
-		}
-		if ln+len(add) <= cp {
-			arr := st.heap[s.Obj].(*ArrV)
-			na := &ArrV{Elems: append([]Value(nil), arr.Elems...)}
-			copy(na.Elems[s.Off+ln:], add)
-			st.heapW()[s.Obj] = na
-			done(SliceV{Obj: s.Obj, Off: s.Off, Len: BVC(64, uint64(ln+len(add))), Cap: s.Cap})
-			return
-		}
-		newCap := 2 * cp
-		if newCap < ln+len(add) {
-			newCap = ln + len(add)
-		}
 		elem := x.Call.Args[0].Type().Underlying().(*types.Slice).Elem()
-		na := &ArrV{Elems: make([]Value, newCap)}
-		z := zeroValue(elem)
-		for i := range na.Elems {
-			na.Elems[i] = z
-		}
-		if ln > 0 {
-			arr := st.heap[s.Obj].(*ArrV)
-			copy(na.Elems, arr.Elems[s.Off:s.Off+ln])
-		}
-		copy(na.Elems[ln:], add)
-		id := ex.alloc(st, na)
-		done(SliceV{Obj: id, Len: BVC(64, uint64(ln+len(add))), Cap: BVC(64, uint64(newCap))})
+		ex.expandSeq(st, args[1], "append", func(s2 *State, add []Value) {
+			v := ex.appendVals(s2, s, add, elem)
+			f := s2.top()
+			f.regs[x] = v
+			f.ip++
+		})
 	case "copy":
 		dst := args[0].(SliceV)
-		dl := ex.concreteInt(dst.Len, "copy: dst length")
-		var src []Value
-		switch t := args[1].(type) {
-		case SliceV:
-			n := ex.concreteInt(t.Len, "copy: src length")
-			if n > 0 {
-				arr := st.heap[t.Obj].(*ArrV)
-				src = append(src, arr.Elems[t.Off:t.Off+n]...)
-			}
-		case *Term:
-			if !t.Const {
-				unsupported("copy from symbolic string")
-			}
-			for i := 0; i < len(t.Str); i++ {
-				src = append(src, BVC(8, uint64(t.Str[i])))
-			}
-		}
-		n := dl
-		if len(src) < n {
-			n = len(src)
-		}
-		if n > 0 {
-			arr := st.heap[dst.Obj].(*ArrV)
-			na := &ArrV{Elems: append([]Value(nil), arr.Elems...)}
-			copy(na.Elems[dst.Off:dst.Off+n], src[:n])
-			st.heapW()[dst.Obj] = na
-		}
-		done(BVC(64, uint64(n)))
+		ex.expandSeq(st, args[1], "copy", func(s2 *State, src []Value) {
+			n := ex.copyVals(s2, dst, src)
+			f := s2.top()
+			f.regs[x] = BVC(64, uint64(n))
+			f.ip++
+		})
 	case "delete":
 		ex.mapDelete(st, args[0].(MapV), args[1])
 		f := st.top()
@@ -358,6 +294,92 @@ func (ex *Exec) builtin(st *State, fr *Frame, x *ssa.Call, b *ssa.Builtin, args 
 	default:
 		unsupported("builtin %s", b.Name())
 	}
+}
+
+// maxSeqExpand bounds the length of a symbolic string expanded element-wise by append/copy.
+const maxSeqExpand = 16
+
+// expandSeq calls f with the elements of a slice (concrete length) or string; a symbolic string forks on its length.
+func (ex *Exec) expandSeq(st *State, v Value, what string, f func(st *State, elems []Value)) {
+	switch t := v.(type) {
+	case SliceV:
+		n := ex.concreteInt(t.Len, what+": length of source slice")
+		var out []Value
+		if n > 0 {
+			arr := st.heap[t.Obj].(*ArrV)
+			out = append(out, arr.Elems[t.Off:t.Off+n]...)
+		}
+		f(st, out)
+	case *Term:
+		if t.Const {
+			var out []Value
+			for i := 0; i < len(t.Str); i++ {
+				out = append(out, BVC(8, uint64(t.Str[i])))
+			}
+			f(st, out)
+			return
+		}
+		ex.concretize(st, StrLen(t), maxSeqExpand+1, func(s2 *State, n int) {
+			if n >= maxSeqExpand {
+				unsupported("%s of a symbolic string longer than %d bytes", what, maxSeqExpand-1)
+			}
+			var out []Value
+			for i := 0; i < n; i++ {
+				out = append(out, StrAt(t, BVC(64, uint64(i))))
+			}
+			f(s2, out)
+		})
+	default:
+		unsupported("%s of %T", what, v)
+	}
+}
+
+// appendVals implements append(s, add...) for a slice of concrete length and capacity (growth: doubling, as far
+// as harnesses may observe: only len, contents and aliasing-or-not are specified by the language).
+func (ex *Exec) appendVals(st *State, s SliceV, add []Value, elem types.Type) SliceV {
+	ln := ex.concreteInt(s.Len, "append: slice length")
+	cp := ex.concreteInt(s.Cap, "append: slice capacity")
+	if len(add) == 0 {
+		return s
+	}
+	if ln+len(add) <= cp {
+		arr := st.heap[s.Obj].(*ArrV)
+		na := &ArrV{Elems: append([]Value(nil), arr.Elems...)}
+		copy(na.Elems[s.Off+ln:], add)
+		st.heapW()[s.Obj] = na
+		return SliceV{Obj: s.Obj, Off: s.Off, Len: BVC(64, uint64(ln+len(add))), Cap: s.Cap}
+	}
+	newCap := 2 * cp
+	if newCap < ln+len(add) {
+		newCap = ln + len(add)
+	}
+	na := &ArrV{Elems: make([]Value, newCap)}
+	z := zeroValue(elem)
+	for i := range na.Elems {
+		na.Elems[i] = z
+	}
+	if ln > 0 {
+		arr := st.heap[s.Obj].(*ArrV)
+		copy(na.Elems, arr.Elems[s.Off:s.Off+ln])
+	}
+	copy(na.Elems[ln:], add)
+	id := ex.alloc(st, na)
+	return SliceV{Obj: id, Len: BVC(64, uint64(ln+len(add))), Cap: BVC(64, uint64(newCap))}
+}
+
+// copyVals implements copy(dst, src...) and returns the number of elements copied.
+func (ex *Exec) copyVals(st *State, dst SliceV, src []Value) int {
+	n := ex.concreteInt(dst.Len, "copy: dst length")
+	if len(src) < n {
+		n = len(src)
+	}
+	if n > 0 {
+		arr := st.heap[dst.Obj].(*ArrV)
+		na := &ArrV{Elems: append([]Value(nil), arr.Elems...)}
+		copy(na.Elems[dst.Off:dst.Off+n], src[:n])
+		st.heapW()[dst.Obj] = na
+	}
+	return n
 }
 
 // ---------- maps (small association lists; keys compared with valEq) ----------
